@@ -1,7 +1,7 @@
 SPECIFICATION Spec
 CONSTANTS
   Mode = "monitor"
-  Procs = {1,2,3,4}
+  Procs = {1,2,3,4,5,6}
   NoneC = "None"
 CONSTRAINT HW
 INVARIANT Inv
